@@ -26,12 +26,17 @@ def sub_fields(sub):
     return dict(Y=Y, M=M, D=D, h=h, mi=mi, s=s, days=days, sod=h * 3600 + mi * 60 + s, sub_sec=days * 86400 + h * 3600 + mi * 60 + s)
 
 
+def subdir_of(t_ms, sc):
+    s = (t_ms // 1000) // sc * sc
+    return (datetime.datetime(1970, 1, 1) + datetime.timedelta(seconds=s)).strftime("%Y-%m-%dT%H-%M-%S")
+
+
 def rf_record(n, d, fc, sc, name_ms, sub, first, last, cont, overlap=False, tag=""):
     sf = sub_fields(sub) or dict(Y=1970, M=1, D=1, h=0, mi=0, s=0, days=0, sod=0, sub_sec=0)
     ss = sf.pop("sub_sec")
     ev = dict(ev="rf", n=limbs(n), d=limbs(d), fc=limbs(fc), sc=limbs(sc), name=limbs(name_ms), q=limbs(name_ms // fc),
               sub=limbs(ss), qs=limbs(ss // sc), first=limbs(first), last=limbs(last), cont=bool(cont), overlap=bool(overlap),
-              raw=dict(n=n, d=d, fc=fc, sc=sc, name_ms=name_ms, sub=sub, first=first, last=last, tag=tag))
+              raised=False, raw=dict(n=n, d=d, fc=fc, sc=sc, name_ms=name_ms, sub=sub, first=first, last=last, tag=tag))
     ev.update(sf)
     return ev
 
@@ -69,15 +74,23 @@ def boundary_triple(digital_rf, root, rng, n, d, fc, sc, j, mode, dtype="i2"):
     w = digital_rf.DigitalRFWriter(os.path.join(root, "ch"), np.dtype(dtype), sc, fc, start, n, d, is_complex=False,
                                    num_subchannels=1, is_continuous=cont, compression_level=(1 if mode == "contC" else 0), marching_periods=False)
     one = np.array([7], dtype=dtype)
-    if rng.random() < 0.5 and ks - 1 >= start:
-        # one contiguous write across the boundary (the writer has to split it)
-        w.rf_write(np.array([7, 8, 9], dtype=dtype), ks - 1 - start)
-    else:
-        for k in (ks - 1, ks, ks + 1):
-            if k >= start:
-                w.rf_write(one, k - start)
+    raised = False
+    try:
+        if rng.random() < 0.5 and ks - 1 >= start:
+            # one contiguous write across the boundary (the writer has to split it)
+            w.rf_write(np.array([7, 8, 9], dtype=dtype), ks - 1 - start)
+        else:
+            for k in (ks - 1, ks, ks + 1):
+                if k >= start:
+                    w.rf_write(one, k - start)
+    except Exception:  # noqa: BLE001 - a valid forward write next to a file boundary must be accepted
+        raised = True
     w.close()
     recs = []
+    if raised:
+        r = rf_record(n, d, fc, sc, t, subdir_of(t, sc), ks, ks, False, False, tag="boundary j=%d: a valid write was refused" % j)
+        r["raised"] = True
+        recs.append(r)
     files = scan_channel(os.path.join(root, "ch"))
     seen = []
     for sub, name_ms, first, last, dlen in files:
